@@ -107,6 +107,19 @@ pub broadcast proof fn lemma_rep_term_toks_snoc(xs: Seq<TokenStream>, x: TokenSt
 {
     lemma_rep_term_toks_push(xs, x, term, xs.len() as int);
 }
+pub broadcast proof fn lemma_rep_sep_toks_push(xs: Seq<TokenStream>, x: TokenStream, sep: u64, n: int)
+    requires n <= xs.len()
+    ensures #[trigger] rep_sep_toks(xs.push(x), sep, n) == rep_sep_toks(xs, sep, n)
+    decreases n
+{
+    if n > 1 { lemma_rep_sep_toks_push(xs, x, sep, n - 1); }
+}
+pub broadcast proof fn lemma_rep_sep_toks_snoc(xs: Seq<TokenStream>, x: TokenStream, sep: u64, m: int)
+    requires m == xs.len() + 1
+    ensures #[trigger] rep_sep_toks(xs.push(x), sep, m) == (if m == 1 { x@ } else { rep_sep_toks(xs, sep, m - 1).add(Seq::<Tok>::empty().push(Tok::T(sep))).add(x@) })
+{
+    lemma_rep_sep_toks_push(xs, x, sep, xs.len() as int);
+}
 #[verifier::external_body]
 pub fn vx_ts_rep(t: &mut TokenStream, xs: &Vec<TokenStream>)
     ensures final(t)@ == old(t)@.add(rep_toks(xs@, xs@.len() as int)) { unimplemented!() }
@@ -124,3 +137,11 @@ pub fn vx_panic() -> ! { panic!() }
 pub fn vx_forbidden_panic() -> !
     requires false, // @ob PANIC.forbidden
 { vx_panic() }
+// `Peekable::peek` on an iterator that R9 collected into a Vec (method_rename peek -> vx_peek): the first element, if any
+pub trait VxPeek<T> { fn vx_peek(&mut self) -> Option<&T>; }
+impl<T> VxPeek<T> for Vec<T> {
+    #[verifier::external_body]
+    fn vx_peek(&mut self) -> (r: Option<&T>)
+        ensures final(self)@ == old(self)@, r.is_some() == (old(self)@.len() > 0), r.is_some() ==> *r.unwrap() == old(self)@[0]
+    { unimplemented!() }
+}
